@@ -55,7 +55,8 @@ LEVEL_TEXT = ("Theorems (Lean 4 kernel, core only; any number of threads, arbitr
               "results and leaves the cache empty-or-canonical (history_independent), also after an arbitrary unfinished "
               "concurrent phase (history_after_any_run); steps never touch TLE, arguments, thread count or other threads' locals "
               "(frame, frame_run) and write a slot only at the two store steps (frame_step); silent steps commute with other "
-              "threads' steps (silent_commute). Tie: real threads under a line-level deterministic scheduler, observed "
+              "threads' steps (silent_commute); the driver's replay of an observed event order is a genuine run of the model "
+              "(replay_is_a_run). Tie: real threads under a line-level deterministic scheduler, observed "
               "load/store traces equal the model's; results compared byte-wise.")
 LEVEL_NOTE = ("Trusted: Lean kernel; axioms propext, Quot.sound (Classical.choice where grind/simp use it); the hand-written model "
               "and its trace correspondence; GIL atomicity of attribute access; numpy purity; bit-identity is measured, not proved.")
@@ -759,7 +760,11 @@ def concurrency(ctx, sats, judge, spy, mode, budget, scale=1):
             return                                              # enough evidence from this stage; do not pile up
         if part[0].over():
             return
-        r = run_schedule(sat, qs, plan, spy=spy, warm=warm)
+        try:
+            r = run_schedule(sat, qs, plan, spy=spy, warm=warm)
+        except SchedulerError:                                  # a stalled machine, not the code under test: once more
+            ctx.count("scheduler_aborted")
+            r = run_schedule(sat, qs, plan, spy=spy, warm=warm)
         judge(sat, qs, plan, r, warm)
         ctx.bump("schedules", label)
 
@@ -824,6 +829,9 @@ def concurrency(ctx, sats, judge, spy, mode, budget, scale=1):
             go(sat, qs, plan, "sampled multi-pre-emption x%d" % nthreads, warm)
 
 
+_SKIP = object()
+
+
 def run_free(sat, qs, timeout=60.0):
     """No scheduler: real pre-emptive threads on one fresh object; results (Runaway for a thread that never returned)."""
     orb = new_orbital(sat.tle)
@@ -832,7 +840,11 @@ def run_free(sat, qs, timeout=60.0):
     bar = threading.Barrier(len(qs))
 
     def work(i):
-        bar.wait(timeout)
+        try:
+            bar.wait(timeout)
+        except threading.BrokenBarrierError:                    # the threads never got going together: no observation
+            res[i] = _SKIP
+            return
         try:
             res[i] = call(orb, qs[i], argss[i])
         except BaseException as e:  # noqa  (Runaway injected by the watchdog)
@@ -860,6 +872,9 @@ def free_running(ctx, sat, on_violation, rounds, budget, nthreads=4):
             if any(sat.fresh(q) is None for q in qs):
                 continue
             res = run_free(sat, qs)
+            if any(r is _SKIP for r in res):
+                ctx.count("free_round_skipped")
+                continue
             ctx.count("eval_free_running", nthreads)
             for i, q in enumerate(qs):
                 if fp(res[i]) != sat.fresh(q)[0]:
@@ -1041,6 +1056,8 @@ def _replay_one(inp, found, corr):
         try:
             for _ in range(200):
                 res = run_free(sat, inp["queries"])
+                if any(r is _SKIP for r in res):
+                    continue
                 for i, q in enumerate(inp["queries"]):
                     if fp(res[i]) != sat.fresh(q)[0]:
                         found.append(("interleaving_dependent", short(res[i]), sat.fresh(q)[1]))
